@@ -95,6 +95,20 @@ def c01_forms(extended):
                 add("u", "unwrap copy_and_verify_address on %s" % what, "%s sink(e, a.copy_and_verify_address([](uintptr_t v) { return v; }));" % d)
             # derived wrappers stay wrapped
             add("n", "convert to tainted on %s" % what, "%s tainted<%s, S> t = a; sink(e, t);" % (d, ty))
+    # a hint (the result of a comparison with sandbox-resident data) as an operand: the result must stay a hint
+    for w in ("T", "V"):
+        for ty in ("bool", "int", "char", "long"):
+            d = decl(w, ty)
+            wn = {"T": "tainted", "V": "tainted_volatile"}[w]
+            for hn, hacc in (("tainted_boolean_hint", "auto h = e.HB();"), ("tainted_int_hint", "auto h = e.HI();")):
+                for op in CMPOPS + LOGOPS + ["+", "&", "|", "^"]:
+                    add("v", "hintoperand a %s %s on %s<%s>" % (op, hn, wn, ty), "%s %s sink(e, a %s h);" % (d, hacc, op))
+                    add("v", "hintoperand %s %s a on %s<%s>" % (hn, op, wn, ty), "%s %s sink(e, h %s a);" % (d, hacc, op))
+    for hn, hacc in (("tainted_boolean_hint", "auto h = e.HB();"), ("tainted_int_hint", "auto h = e.HI();")):
+        for op in CMPOPS + LOGOPS:
+            add("v", "hintoperand hint %s hint (%s)" % (op, hn), "%s auto h2 = h; sink(e, h %s h2);" % (hacc, op))
+            add("v", "hintoperand hint %s plain (%s)" % (op, hn), "%s sink(e, h %s true);" % (hacc, op))
+            add("v", "hintoperand plain %s hint (%s)" % (op, hn), "%s sink(e, true %s h);" % (hacc, op))
     # arrays and structs
     for w, acc in (("tainted", "auto a = e.Tarr();"), ("tainted_volatile", "auto& a = e.Varr();")):
         what = "%s<int[4]>" % w
